@@ -1,13 +1,16 @@
 """C14 — procedural generators give valid meshes of the promised shape, all parameters."""
-import ast, math, itertools
+import ast, math, itertools, os, sys
 from fractions import Fraction
 
 from .. import translate as T
 from .. import pyloops as PL
+from .. import pyverts as PV
 
 PID = "C14"
 TITLE = "Procedural generators give valid meshes of the promised shape, all parameters"
-LEAN_MODULES = ["Mouette.Props.C14", "Mouette.Props.C14NoUnused", "Mouette.Props.C14Oriented", "Mouette.Props.C14Sphere", "Mouette.Props.C14Cylinder", "Mouette.Props.C14Rings", "Mouette.Props.C14Triangle", "Mouette.Props.C14Geom"]
+LEAN_MODULES = ["Mouette.Props.C14", "Mouette.Props.C14NoUnused", "Mouette.Props.C14Oriented", "Mouette.Props.C14Sphere", "Mouette.Props.C14Cylinder", "Mouette.Props.C14Rings", "Mouette.Props.C14Triangle", "Mouette.Props.C14Geom",
+                "Mouette.Props.C14Euler", "Mouette.Props.C14CylinderTopo", "Mouette.Props.C14RingsTopo", "Mouette.Props.C14GridTopo",
+                "Mouette.Props.C14TriangleTopo", "Mouette.Props.C14Connected", "Mouette.Props.C14Verts", "Mouette.Props.C14Derived", "Mouette.Props.C14Bisect"]
 
 # ------------------------------------------------------------------------------------------------
 # translated fragments
@@ -28,6 +31,19 @@ TABLES = [
     ("mouette/procedural/flat.py", "triangle", "out"),
 ]
 LEAN_KEYWORDS = {"open": "isOpen"}
+# vertex-emitting code: (file, function, container, int params, bool params, scalar params, vector params)
+VERTEX_SITES = [
+    ("mouette/procedural/flat.py", "unit_grid", "out", ["nu", "nv"], ["triangulate", "generate_uvs"], [], []),
+    ("mouette/procedural/flat.py", "unit_triangle", "out", ["nu", "nv"], ["generate_uvs"], [], []),
+    ("mouette/procedural/shapes.py", "torus", "out", ["major_segments", "minor_segments"], ["triangulate"], ["major_radius", "minor_radius"], []),
+    ("mouette/procedural/shapes.py", "sphere_uv", "sp", ["n_lat", "n_long"], [], ["radius"], ["center"]),
+    ("mouette/procedural/shapes.py", "cylinder", "cy", ["N"], ["fill_caps"], ["radius"], ["P1", "P2"]),
+    ("mouette/procedural/rings.py", "ring", "ring", ["N", "n_cover"], ["open"], ["defect"], []),
+    ("mouette/procedural/rings.py", "flat_ring", "ring", ["N", "n_cover"], [], ["defect"], []),
+]
+HELPER_SITES = [("mouette/geometry/rotations.py", "rotate_2d", [("v", "vc"), ("angle", "sc")]),
+                ("mouette/geometry/rotations.py", "rotate_around_axis", [("inp", "vc"), ("_axis", "vc"), ("angle", "sc")])]
+_VERT = {}          # generator -> (evaluate(values) -> list of points, Exec)  — filled by translate()
 
 
 def _rn(n):
@@ -164,8 +180,225 @@ def translate():
         return f"/-- (switch of hexahedron_4pts, parameter of hexahedron it is bound to) -/\ndef hexa4ptsBinding : List (String × String) := [{rows}]\n\n"
     add("mouette/procedural/shapes.py:hexahedron_4pts (argument binding of the forwarded switches)", binding)
 
+    add("mouette/procedural/dual.py:dual_mesh (one vertex per face, one face per vertex) + octahedron / dodecahedron (what they are the dual of)", _translate_dual)
+    add("mouette/procedural/polylines.py:chain_of_vertices + mouette/utils/iterators.py (edge list)", _translate_chain)
+    add("mouette/procedural/polylines.py:vector_field (edge list)", _translate_vector_field)
     T.write_generated("C14", body + "end Mouette.Generated.C14\n", header="set_option linter.unusedVariables false\nnamespace Mouette.Generated.C14\n\n")
+
+    # ---- vertex positions: expressions over a field with abstract cos / sin / pi (Generated/C14Verts.lean) ----------------
+    vbody = ""
+    helpers = {}
+    _VERT.clear()
+
+    def addv(name, fn):
+        nonlocal vbody
+        def run():
+            nonlocal vbody
+            txt = fn()
+            vbody += txt
+            return f"{len(txt)} chars"
+        sites.append(T.site(name, run))
+
+    for path, fname, params in HELPER_SITES:
+        def hlp(p=path, f=fname, ps=params):
+            tree, _ = T.load(p)
+            h, txt = PV.translate_helper(T.find_def(tree, f), ps, helpers)
+            helpers[f] = h
+            return txt
+        addv(f"{path}:{fname} (helper -> expression over a field)", hlp)
+    for path, fname, var, ints, bools, scs, vecs in VERTEX_SITES:
+        def vt(p=path, f=fname, v=var, i=ints, b=bools, sc=scs, ve=vecs):
+            tree, _ = T.load(p)
+            txt, ev, ex = PV.translate_generator(T.find_def(tree, f), f, v, i, b, sc, ve, helpers)
+            _VERT[f] = (ev, ex)
+            return txt
+        addv(f"{path}:{fname} (vertex loop -> positions over a field with abstract cos/sin)", vt)
+    addv("mouette/procedural/shapes.py:icosphere (projection of every vertex on the sphere)", _translate_icosphere_projection)
+    addv("mouette/procedural/rings.py:ring (bisection on the apex height: initial bracket, one pass of the while loop with numpy aliasing semantics, returned apex)", _translate_ring_bisection)
+    T.write_generated("C14Verts", vbody + "end Mouette.Generated.C14Verts\n",
+                      header="import Mathlib.Algebra.Field.Basic\nimport Mathlib.Algebra.Order.Field.Basic\nset_option linter.unusedVariables false\n"
+                             "namespace Mouette.Generated.C14Verts\nvariable {K : Type} [Field K] [LinearOrder K]\n\n")
     return sites
+
+
+def _translate_dual():
+    """dual_mesh: `for F in mesh.id_faces: out.vertices.append(..)` / `for V in mesh.id_vertices: out.faces.append(..)` -> counts;
+    octahedron() / dodecahedron(): which generator they take the dual of (and that axis_aligned_cube() yields the quad table)"""
+    tree, _ = T.load("mouette/procedural/dual.py")
+    fn = T.find_def(tree, "dual_mesh")
+
+    class R(ast.NodeTransformer):
+        def visit_Attribute(self, node):
+            if isinstance(node.value, ast.Name) and node.value.id == "mesh" and node.attr in ("id_faces", "id_vertices"):
+                return ast.Call(func=ast.Name(id="range", ctx=ast.Load()),
+                                args=[ast.Name(id="nF" if node.attr == "id_faces" else "nV", ctx=ast.Load())], keywords=[])
+            return self.generic_visit(node)
+    body = [R().visit(st) for st in fn.body]
+    nv = PL.emits(list(body), PL.Ctx("out", "vertices", ["nF", "nV"], [], elem="unit"))
+    nf = PL.emits(list(body), PL.Ctx("out", "faces", ["nF", "nV"], [], elem="unit"))
+    stree, _ = T.load("mouette/procedural/shapes.py")
+
+    def dual_of(name):
+        f = T.find_def(stree, name)
+        rets = [st for st in f.body if isinstance(st, ast.Return)]
+        if len(rets) != 1: raise T.TranslateError(f"{name}: single return expected")
+        c = rets[0].value
+        if not (isinstance(c, ast.Call) and getattr(c.func, "id", None) == "dual_mesh" and len(c.args) == 1 and not c.keywords
+                and isinstance(c.args[0], ast.Call) and not c.args[0].args and not c.args[0].keywords):
+            raise T.TranslateError(f"{name}: not `return dual_mesh(<generator>())`")
+        return c.args[0].func.id
+    cube = T.find_def(stree, "axis_aligned_cube")
+    defaults = dict(zip([a.arg for a in cube.args.args][-len(cube.args.defaults):], [ast.unparse(d) for d in cube.args.defaults]))
+    ret = [st for st in cube.body if isinstance(st, ast.Return)][0].value
+    kw = {k.arg: ast.unparse(k.value) for k in ret.keywords}
+    if getattr(ret.func, "id", None) != "hexahedron" or kw.get("triangulate") != "triangulate" or defaults.get("triangulate") != "False" \
+            or "volume" in kw:
+        raise T.TranslateError("axis_aligned_cube() is no longer the quad hexahedron by default")
+    return (f"/-- `dual_mesh` of a surface with nF faces and nV vertices: number of `vertices.append` / `faces.append` executions -/\n"
+            f"def dualNVerts (nF nV : Nat) : Nat := (({nv} : List Unit)).length\n"
+            f"def dualNFaces (nF nV : Nat) : Nat := (({nf} : List Unit)).length\n"
+            f"/-- octahedron() = dual_mesh(<this>()), dodecahedron() = dual_mesh(<this>()); axis_aligned_cube() = quad hexahedron -/\n"
+            f"def octahedronDualOf : String := \"{dual_of('octahedron')}\"\ndef dodecahedronDualOf : String := \"{dual_of('dodecahedron')}\"\n\n")
+
+
+def _translate_icosphere_projection():
+    """every `<mesh>.vertices[iv] = center + radius*Vec.normalized(<mesh>.vertices[iv]-center)` of icosphere -> expression of (center, radius, v)"""
+    tree, _ = T.load("mouette/procedural/shapes.py")
+    fn = T.find_def(tree, "icosphere")
+    sites = [st for st in ast.walk(fn) if isinstance(st, ast.Assign) and len(st.targets) == 1 and isinstance(st.targets[0], ast.Subscript)
+             and isinstance(st.targets[0].value, ast.Attribute) and st.targets[0].value.attr == "vertices"]
+    if len(sites) != 2: raise T.TranslateError(f"icosphere: two projection statements expected, found {len(sites)}")
+    # every vertex must be projected: each site sits directly in a loop over all vertex ids of the same mesh
+    out = ""
+    for k, st in enumerate(sites):
+        tgt = ast.unparse(st.targets[0])
+        loops = [l for l in ast.walk(fn) if isinstance(l, ast.For) and st in l.body]
+        if len(loops) != 1 or ast.unparse(loops[0].iter) != ast.unparse(st.targets[0].value.value) + ".id_vertices" \
+                or ast.unparse(loops[0].target) != ast.unparse(st.targets[0].slice):
+            raise T.TranslateError("icosphere: projection is not applied to every vertex id")
+
+        class R(ast.NodeTransformer):
+            def visit_Subscript(self, node):
+                if ast.unparse(node) == tgt: return ast.Name(id="v", ctx=ast.Load())
+                return self.generic_visit(node)
+        ex = PV.Exec(None, [], [], ["radius"], ["center", "v"], {}, owner="icosphere")
+        kind, val = ex.val(R().visit(st.value))
+        if kind != "vc": raise T.TranslateError("icosphere: projection is not a vector")
+        out += (f"/-- projection statement {k} of `icosphere`: new position of a vertex at `v` -/\n"
+                f"def icosphereProject{k} (normalize : K × K × K → K × K × K) (radius : K) (center v : K × K × K) : K × K × K :=\n"
+                f"  {PV.L_vec(val)}\n\n")
+    # the last statement executed on the returned mesh's vertices is a projection: after the final subdivision round
+    return out
+
+
+_BISECT = {}
+
+
+def _translate_ring_bisection():
+    """the dichotomy of `ring`: `P1 = …; P2 = …` before the loop, the loop body as a step function on (P1, P2) — executed with
+    the aliasing semantics of numpy arrays: `a = b` binds the same object, `a *= k` updates it in place for every name bound to
+    it — and the final `ring.vertices[0] = …`"""
+    tree, _ = T.load("mouette/procedural/rings.py")
+    fn = T.find_def(tree, "ring")
+    txt, ev = PV.translate_while_step(fn, "ringBisectStep", ["P1", "P2"], ["N"], ["defect"], ["A", "B"], {"angle_3pts": 3},
+                                      skip_targets=("stop",))
+    _BISECT["step"] = ev
+    loop = [st for st in fn.body if isinstance(st, ast.While)][0]
+    # stop criterion: `stop = (abs(dfct1 - dfct2) < <threshold>)` with `while not stop`
+    stops = [st for st in loop.body if isinstance(st, ast.Assign) and ast.unparse(st.targets[0]) == "stop"]
+    if ast.unparse(loop.test) != "not stop" or len(stops) != 1 or not (isinstance(stops[0].value, ast.Compare)
+            and ast.unparse(stops[0].value.left) == "abs(dfct1 - dfct2)" and isinstance(stops[0].value.ops[0], ast.Lt)
+            and isinstance(stops[0].value.comparators[0], ast.Constant)):
+        raise T.TranslateError("ring: stop criterion is not `abs(dfct1 - dfct2) < threshold`")
+    thr = Fraction(repr(stops[0].value.comparators[0].value))
+    idx = fn.body.index(loop)
+    ex = PV.Exec(None, ["N", "n_cover"], [], [], [], {}, owner="ring")
+    init = {}
+    for st in fn.body[:idx]:
+        if isinstance(st, ast.Assign) and isinstance(st.targets[0], ast.Name) and st.targets[0].id in ("P1", "P2"):
+            k, v = ex.val(st.value)
+            init[st.targets[0].id] = v
+    if set(init) != {"P1", "P2"}: raise T.TranslateError("ring: initial bracket not found")
+    fin = [st for st in fn.body[idx + 1:] if isinstance(st, ast.Assign) and ast.unparse(st.targets[0]) == "ring.vertices[0]"]
+    if len(fin) != 1: raise T.TranslateError("ring: `ring.vertices[0] = …` after the loop not found")
+    ex2 = PV.Exec(None, [], [], [], ["P1", "P2"], {}, owner="ring")
+    k, apex = ex2.val(fin[0].value)
+    # A, B: the two rim vertices the angle is measured between
+    ab = {ast.unparse(st.targets[0]): ast.unparse(st.value) for st in fn.body[:idx] if isinstance(st, ast.Assign) and ast.unparse(st.targets[0]) in ("A", "B")}
+    if ab != {"A": "ring.vertices[1]", "B": "ring.vertices[2]"}: raise T.TranslateError("ring: A, B are not rim vertices 1 and 2")
+    txt += (f"/-- initial bracket of the bisection -/\ndef ringBisectInit : (K × K × K) × (K × K × K) := ({PV.L_vec(init['P1'])}, {PV.L_vec(init['P2'])})\n"
+            f"/-- the apex stored in vertex 0 once the loop has stopped -/\ndef ringApex (P1 P2 : K × K × K) : K × K × K := {PV.L_vec(apex)}\n"
+            f"/-- the loop stops when |dfct(P1) − dfct(P2)| is below this threshold -/\ndef ringStopThreshold : K := {PV.L_sc(('num', thr))}\n\n")
+    return txt
+
+
+def _pairs_of_iterator(fname):
+    """`def f(L): [n = len(L)]; for i in range(<len>): yield L[a], L[b]` applied to L = range(n) -> (count expr, a, b) as Lean strings"""
+    tree, _ = T.load("mouette/utils/iterators.py")
+    fn = T.find_def(tree, fname)
+    body = [st for st in fn.body if not (isinstance(st, ast.Expr) and isinstance(st.value, ast.Constant))]
+    lenname = None
+    if len(body) == 2 and isinstance(body[0], ast.Assign) and ast.unparse(body[0].value) == "len(L)":
+        lenname = body[0].targets[0].id; body = body[1:]
+    if len(body) != 1 or not isinstance(body[0], ast.For): raise T.TranslateError(f"{fname}: unexpected shape")
+    loop = body[0]
+    if not (isinstance(loop.iter, ast.Call) and getattr(loop.iter.func, "id", None) == "range" and len(loop.iter.args) == 1):
+        raise T.TranslateError(f"{fname}: loop is not a plain range")
+
+    class R(ast.NodeTransformer):          # len(L) -> n ; L[e] -> e   (L = range(n))
+        def visit_Call(self, node):
+            if ast.unparse(node) == "len(L)": return ast.Name(id="n", ctx=ast.Load())
+            return self.generic_visit(node)
+
+        def visit_Subscript(self, node):
+            if isinstance(node.value, ast.Name) and node.value.id == "L": return self.visit(node.slice)
+            return self.generic_visit(node)
+
+        def visit_Name(self, node):
+            if lenname and node.id == lenname: return ast.Name(id="n", ctx=ast.Load())
+            return node
+    cx = PL.Ctx("", "", ["n", loop.target.id], [])
+    count = PL.iexpr(R().visit(loop.iter.args[0]), cx)
+    if not (len(loop.body) == 1 and isinstance(loop.body[0], ast.Expr) and isinstance(loop.body[0].value, ast.Yield)
+            and isinstance(loop.body[0].value.value, ast.Tuple) and len(loop.body[0].value.value.elts) == 2):
+        raise T.TranslateError(f"{fname}: body is not `yield a, b`")
+    a, b = (PL.iexpr(R().visit(e), cx) for e in loop.body[0].value.value.elts)
+    return f"((List.range {count}).flatMap (fun {loop.target.id} => [({a}, {b})]))"
+
+
+def _translate_chain():
+    tree, _ = T.load("mouette/procedural/polylines.py")
+    fn = T.find_def(tree, "chain_of_vertices")
+    ifs = [st for st in fn.body if isinstance(st, ast.If)]
+    if len(ifs) != 1 or ast.unparse(ifs[0].test) != "loop": raise T.TranslateError("chain_of_vertices: `if loop:` not found")
+
+    def branch(stmts):
+        if len(stmts) != 1 or not isinstance(stmts[0], ast.AugAssign) or ast.unparse(stmts[0].target) != "pl.edges":
+            raise T.TranslateError("chain_of_vertices: branch is not `pl.edges += …`")
+        v = stmts[0].value
+        if not (isinstance(v, ast.ListComp) and isinstance(v.elt, ast.Name) and v.elt.id == v.generators[0].target.id
+                and not v.generators[0].ifs):
+            raise T.TranslateError("chain_of_vertices: not a plain list comprehension")
+        call = v.generators[0].iter
+        if not (isinstance(call, ast.Call) and isinstance(call.func, ast.Attribute) and ast.unparse(call.args[0]) == "range(n)"):
+            raise T.TranslateError("chain_of_vertices: iterator is not applied to range(n)")
+        return _pairs_of_iterator(call.func.attr)
+    return ("/-- edges added by `chain_of_vertices` over n vertices (polylines.py + the pair iterators of utils/iterators.py) -/\n"
+            f"def chainEdges (n : Nat) (loop : Bool) : List (Nat × Nat) :=\n  if loop = true then {branch(ifs[0].body)} else {branch(ifs[0].orelse)}\n\n")
+
+
+def _translate_vector_field():
+    tree, _ = T.load("mouette/procedural/polylines.py")
+    fn = T.find_def(tree, "vector_field")
+    loops = [st for st in fn.body if isinstance(st, ast.For)]
+    if len(loops) != 1: raise T.TranslateError("vector_field: one loop expected")
+    cxe = PL.Ctx("pl", "edges", ["n"], [], elem="face")
+    edges = PL.emits(loops, cxe)
+    # vertices are added two at a time by `pl.vertices += [a, b]`
+    nv = sum(len(st.value.elts) for st in loops[0].body if isinstance(st, ast.AugAssign) and ast.unparse(st.target) == "pl.vertices"
+             and isinstance(st.value, ast.List))
+    return ("/-- edges added by `vector_field` for n origins (as two-element lists), and vertices added per origin -/\n"
+            f"def vectorFieldEdges (n : Nat) : List (List Nat) :=\n  {edges}\ndef vectorFieldVertsPer : Nat := {nv}\n\n")
 
 
 # ------------------------------------------------------------------------------------------------
@@ -173,13 +406,19 @@ def translate():
 # ------------------------------------------------------------------------------------------------
 MODELLED = {"unit_grid": (2, 2), "unit_triangle": (2, 1), "torus": (2, 1), "sphere_uv": (2, 0), "cylinder": (1, 1),
             "ring": (2, 1), "flat_ring": (2, 0), "tetrahedron": (0, 0), "icosahedron": (0, 0), "triangle": (0, 0),
-            "hexahedron": (0, 1), "quad": (0, 1)}
+            "hexahedron": (0, 1), "quad": (0, 1), "chain_of_vertices": (1, 1), "vector_field": (1, 0)}
+
+
+# requested angle defects: ordinary values, values that need an apex ABOVE the initial bisection bracket z <= 10 (about > 5.67),
+# the clamp 2*pi - 0.01, and values outside [0, 2*pi - 0.01] that get clamped
+DEFECTS = [0.0, 0.25, 0.5, 1.0, 2.0, 4.0, 4.5, 5.5, 5.7, 5.8, 6.0, 6.2, 2 * math.pi - 0.01, 7.0, -1.0]
 
 
 def _geo(rng):
     d = lambda: rng.randint(-24, 24) / 8
+    defect = rng.choice(DEFECTS) if rng.random() < 0.6 else rng.uniform(0.0, 2 * math.pi)
     return {"center": [d(), d(), d()], "radius": rng.choice([0.125, 0.5, 1.0, 2.5, 7.0]),
-            "P": [[d(), d(), d()] for _ in range(8)], "defect": rng.choice([0.0, 0.25, 0.5, 1.0, 2.0, 4.0])}
+            "P": [[d(), d(), d()] for _ in range(8)], "defect": defect}
 
 
 def cases(rng, tier):
@@ -216,13 +455,37 @@ def cases(rng, tier):
     out += [{"gen": g, "ints": [], "bools": []} for g in ("octahedron", "dodecahedron", "binding")]
     out += [{"gen": "icosphere", "ints": [n], "bools": []} for n in range(0, 3 if tier == "quick" else 4)]
     out += [{"gen": "sphere_fibonacci", "ints": [n], "bools": [True]} for n in ([4, 7, 12, 30, 100] if tier == "quick" else list(range(4, 60)) + [300])]
-    out += [{"gen": "dual_mesh", "ints": [a, b], "bools": []} for a in (3, 4, 5) for b in (3, 5)]
-    out += [{"gen": "chain_of_vertices", "ints": [n], "bools": [l]} for n in (3, 4, 6) for l in B]
+    out += [{"gen": "sphere_fibonacci", "ints": [n], "bools": [False]} for n in (1, 9)]
+    out += [{"gen": "dual_mesh", "ints": [a, b], "bools": [], "mode": md} for a in (3, 4, 5) for b in (3, 5) for md in ("barycenter", "circumcenter")]
+    out += [{"gen": "dual_mesh", "ints": [], "bools": [], "mode": md, "base": base} for md in ("barycenter", "Circumcenter")
+            for base in ("icosahedron", "tetrahedron", "cube_tri")] + [{"gen": "dual_mesh", "ints": [], "bools": [], "mode": "barycenter", "base": "cube"}]
+    # a closed chain needs n >= 3 (n = 2 would link 0-1 twice, n = 1 is a self loop): not admissible
+    out += [{"gen": "chain_of_vertices", "ints": [n], "bools": [l]} for n in ((1, 2, 3, 4, 6, 9) if tier == "quick" else range(1, 40))
+            for l in B if n >= 3 or not l]
+    out += [{"gen": "vector_field", "ints": [n], "bools": [], "length_mult": lm, "dim": d}
+            for n in ((1, 2, 5) if tier == "quick" else range(1, 12)) for lm in (1.0, 0.25, -2.0) for d in (2, 3)]
+    out += [{"gen": "icosahedron", "ints": [], "bools": [], "uv": True}]
     out += [{"gen": "cylindrify_edges", "ints": [n], "bools": []} for n in (3, 5)]
     out += [{"gen": "spherify_vertices", "ints": [n], "bools": []} for n in (0, 1)]
     for c in out:
         c["geo"] = _geo(rng)
+        if c["gen"] == "torus":       # major and minor radius vary independently (the major one stays the larger)
+            c["geo"]["R"] = rng.choice([1.25, 2.0, 4.0, 9.0]) * c["geo"]["radius"] + rng.choice([0.0, 0.5])
         if rng.random() < 0.25: _integer_rep(c)
+    sweep = []
+    for dv in DEFECTS + [5.9, 6.1]:
+        for n in ((3, 6, 10) if tier == "quick" else (3, 4, 5, 6, 8, 10, 25)):
+            kinds = [(1, False), (2, False), (1, True), (2, True)] if (n == 6 or tier != "quick") else [(1, False)]
+            sweep += [{"gen": "ring", "ints": [n, c_], "bools": [o], "defect": dv} for c_, o in kinds]
+            if n == 6 or tier != "quick": sweep += [{"gen": "flat_ring", "ints": [n, c_], "bools": [], "defect": dv} for c_ in (1, 2)]
+    sweep += [{"gen": "cylinder", "ints": [n], "bools": [t], "axis": ax} for n in (3, 5, 8) for t in B
+              for ax in ([0., 0., 3.], [0., 0., -2.], [1e-9, 0., 1.], [0., 2., 0.], [1., 0., 0.])]
+    sweep += [{"gen": "cylindrify_edges", "ints": [4], "bools": [], "no_edges": True},
+              {"gen": "spherify_vertices", "ints": [1], "bools": [], "raw_points": True}]
+    for c in sweep:
+        c["geo"] = _geo(rng)
+        if "defect" in c: c["geo"]["defect"] = c.pop("defect")
+    out += sweep
     # documented defaults, after the generator was used with other values
     dflt = [{"gen": "sphere_uv", "ints": [a, b], "bools": []} for a, b in ((1, 3), (3, 4), (4, 7))]
     dflt += [{"gen": "icosphere", "ints": [n], "bools": []} for n in (0, 1)]
@@ -243,7 +506,8 @@ def _integer_rep(c):
     g["center"] = [int(round(x)) for x in g["center"]]
     g["P"] = [[int(round(x)) + (i if k == 0 else 0) for k, x in enumerate(p)] for i, p in enumerate(g["P"])]
     g["radius"] = int(max(1, round(g["radius"])))
-    g["defect"] = int(g["defect"])
+    if "R" in g: g["R"] = int(math.ceil(g["R"])) + g["radius"]
+    g["defect"] = int(g["defect"]) if g["defect"] < 6.2 else g["defect"]     # 6 stays in the bracket-extension region
     c["rep"] = "int"
     return c
 
@@ -253,13 +517,14 @@ def model_request(case):
     if g == "binding": return "binding"
     if g not in MODELLED: return None
     if case.get("volume"): return None          # volume meshes: faces come from cell completion (C02), not from the table
+    if g == "vector_field" and case["ints"][0] == 0: return None
     return " ".join([g] + [str(i) for i in case["ints"]] + ["1" if b else "0" for b in case["bools"]])
 
 
 # ------------------------------------------------------------------------------------------------
 # running the implementation
 # ------------------------------------------------------------------------------------------------
-def _run(case):
+def _run(case, trace=True):
     import mouette as M
     import numpy as np
     P = M.procedural
@@ -269,13 +534,74 @@ def _run(case):
 
     def V(p):
         v = M.Vec(*p); held.append((v, np.array(v, copy=True))); return v
+    tr = _BranchTracer() if trace else None
     try:
+        if tr: sys.settrace(tr.global_trace)
         return _run_gen(case, M, np, P, g, I, Bo, geo, V)
     finally:
+        if tr:
+            sys.settrace(None)
+            _LAST["branches"] = tr.keys()
         _LAST["args_changed"] = any(a.dtype != b.dtype or a.shape != b.shape or not np.array_equal(np.asarray(a), b) for a, b in held)
 
 
-_LAST = {"args_changed": False}
+_LAST = {"args_changed": False, "base": None, "branches": []}
+_TRACED = ("mouette/procedural/shapes.py", "mouette/procedural/flat.py", "mouette/procedural/rings.py", "mouette/procedural/polylines.py",
+           "mouette/procedural/dual.py", "mouette/procedural/transformations.py", "mouette/geometry/rotations.py")
+_BRANCH_TABLE = {}
+
+
+def _branch_table():
+    """every `if` / `elif` of the traced files: (file, line of the test) -> (label, first line of the then-block, first line of the else-block)"""
+    if _BRANCH_TABLE: return _BRANCH_TABLE
+    for rel in _TRACED:
+        path = os.path.realpath(os.path.join(T.REPO, rel))
+        tree = ast.parse(open(path).read())
+        for fn in ast.walk(tree):
+            if not isinstance(fn, ast.FunctionDef): continue
+            for n in ast.walk(fn):
+                if isinstance(n, ast.If):
+                    lab = f"{os.path.basename(rel)}:{fn.name}:L{n.lineno} if {ast.unparse(n.test)[:44]}"
+                    _BRANCH_TABLE.setdefault(path, {})[n.lineno] = (lab, n.body[0].lineno, n.orelse[0].lineno if n.orelse else None)
+    return _BRANCH_TABLE
+
+
+class _BranchTracer:
+    """line counts inside the traced files during one call of a generator -> which side of every `if` was taken"""
+    def __init__(self):
+        self.hits = {}
+        self.files = set(_branch_table())
+
+    _real = {}          # file name as the code object spells it -> real path if traced, else None (cached: called for every call event)
+
+    def _traced(self, fname):
+        r = self._real.get(fname, 0)
+        if r == 0:
+            rp = os.path.realpath(fname)
+            r = self._real[fname] = rp if rp in self.files else None
+        return r
+
+    def global_trace(self, frame, event, arg):
+        if event == "call" and self._traced(frame.f_code.co_filename): return self.local_trace
+        return None
+
+    def local_trace(self, frame, event, arg):
+        if event == "line":
+            k = (self._traced(frame.f_code.co_filename), frame.f_lineno)
+            self.hits[k] = self.hits.get(k, 0) + 1
+        return self.local_trace
+
+    def keys(self):
+        out = []
+        for path, tab in _branch_table().items():
+            for line, (lab, then_line, else_line) in tab.items():
+                n = self.hits.get((path, line), 0)
+                if not n: continue
+                if then_line == line: out.append(f"branch {lab} : reached"); continue     # `if c: stmt` on one line
+                t = self.hits.get((path, then_line), 0)
+                if t: out.append(f"branch {lab} : then")
+                if (self.hits.get((path, else_line), 0) if else_line else n > t): out.append(f"branch {lab} : else")
+        return out
 
 
 def _run_gen(case, M, np, P, g, I, Bo, geo, V):
@@ -295,7 +621,7 @@ def _run_gen(case, M, np, P, g, I, Bo, geo, V):
     if g == "unit_triangle": return P.unit_triangle(I[0], I[1], generate_uvs=Bo[0])
     if g == "torus": return P.torus(I[0], I[1], geo.get("R", 4 * geo["radius"]), geo["radius"], triangulate=Bo[0])
     if g == "sphere_uv": return P.sphere_uv(I[0], I[1], V(geo["center"]), geo["radius"])
-    if g == "cylinder": return P.cylinder(V(geo["P"][0]), V(geo["P"][0]) + M.Vec(1., 2., 2.), geo["radius"], I[0], fill_caps=Bo[0])
+    if g == "cylinder": return P.cylinder(V(geo["P"][0]), V(geo["P"][0]) + M.Vec(*_cyl_axis(case)), geo["radius"], I[0], fill_caps=Bo[0])
     if g == "ring": return P.ring(I[0], geo["defect"], Bo[0], I[1])
     if g == "flat_ring": return P.flat_ring(I[0], geo["defect"], I[1])
     if g == "tetrahedron": return P.tetrahedron(*[V(p) for p in _tet_pts(geo)], volume=case["volume"])
@@ -306,21 +632,62 @@ def _run_gen(case, M, np, P, g, I, Bo, geo, V):
     if g == "axis_aligned_cube": return P.axis_aligned_cube(colored=case["colored"], triangulate=Bo[0])
     if g == "quad": return P.quad(V(geo["P"][0]), V(geo["P"][1]), V(geo["P"][2]), triangulate=Bo[0])
     if g == "triangle": return P.triangle(V(geo["P"][0]), V(geo["P"][1]), V(geo["P"][2]))
-    if g == "icosahedron": return P.icosahedron(V(geo["center"]), geo["radius"])
+    if g == "icosahedron":
+        return P.icosahedron(V(geo["center"]), geo["radius"], uv=True) if case.get("uv") else P.icosahedron(V(geo["center"]), geo["radius"])
     if g == "octahedron": return P.octahedron()
     if g == "dodecahedron": return P.dodecahedron()
     if g == "icosphere": return P.icosphere(I[0], V(geo["center"]), geo["radius"])
     if g == "sphere_fibonacci": return P.sphere_fibonacci(I[0], geo["radius"], build_surface=Bo[0])
-    if g == "dual_mesh": return P.dual_mesh(P.torus(I[0], I[1], 2., .5, triangulate=True))
+    if g == "dual_mesh":
+        base = _dual_base(case, P, M)
+        _LAST["base"] = base
+        return P.dual_mesh(base, case["mode"]) if "mode" in case else P.dual_mesh(base)
     if g == "chain_of_vertices":
         return P.chain_of_vertices(np.array([[float(i), float(i * i), 0.5] for i in range(I[0])]), loop=Bo[0])
+    if g == "vector_field":
+        o, v = _vf_arrays(case, np)
+        return P.vector_field(o, v, case["length_mult"]) if case["length_mult"] != 1.0 else P.vector_field(o, v)
+    if g == "cylindrify_edges" and case.get("no_edges"):
+        return P.cylindrify_edges(_polyline_without_edges(M, np), radius=0.1, N=I[0])
+    if g == "spherify_vertices" and case.get("raw_points"):
+        return P.spherify_vertices([M.Vec(*p) for p in _SPH_PTS], radius=0.25, n_subdiv=I[0])
     if g == "cylindrify_edges":
-        pl = P.chain_of_vertices(np.array([[0., 0., 0.], [1., 0., 0.], [1., 1., 0.5]]), loop=False)
+        pl = P.chain_of_vertices(np.array(_CYL_PTS), loop=False)
         return P.cylindrify_edges(pl, radius=0.1, N=I[0])
     if g == "spherify_vertices":
-        pc = M.mesh.from_arrays(np.array([[0., 0., 0.], [3., 0., 0.], [0., 3., 1.]]))
+        pc = M.mesh.from_arrays(np.array(_SPH_PTS))
         return P.spherify_vertices(pc, radius=0.25, n_subdiv=I[0])
     raise ValueError(g)
+
+
+_CYL_PTS = [[0., 0., 0.], [1., 0., 0.], [1., 1., 0.5]]
+_SPH_PTS = [[0., 0., 0.], [3., 0., 0.], [0., 3., 1.]]
+
+
+def _cyl_axis(case):
+    return [float(x) for x in case.get("axis", [1., 2., 2.])]
+
+
+def _polyline_without_edges(M, np):
+    raw = M.mesh.RawMeshData()
+    raw.vertices += [M.Vec(*p) for p in _CYL_PTS]
+    return M.mesh.PolyLine(raw)
+
+
+def _dual_base(case, P, M):
+    b = case.get("base")
+    if b is None: return P.torus(case["ints"][0], case["ints"][1], 2., .5, triangulate=True)
+    if b == "icosahedron": return P.icosahedron()
+    if b == "tetrahedron": return P.tetrahedron(M.Vec(0., 0., 0.), M.Vec(1., 0., 0.), M.Vec(0., 1., 0.), M.Vec(0., 0., 1.))
+    if b == "cube_tri": return P.axis_aligned_cube(triangulate=True)
+    return P.axis_aligned_cube()
+
+
+def _vf_arrays(case, np):
+    n, d = case["ints"][0], case["dim"]
+    o = np.array([[float(i), 0.5 * i * i, -1.0 + i][:d] for i in range(n)])
+    v = np.array([[1.0 + i, -2.0, 0.25 * i][:d] for i in range(n)])
+    return o, v
 
 
 def _tet_pts(geo):
@@ -367,17 +734,95 @@ def impl_observe(case):
         res.append("volume->" + ("volume" if type(m).__name__ == "VolumeMesh" else ("triangulate" if len(m.faces[0]) == 3 else "?")))
         return " ".join(res)
     try:
-        m = _run(case)
+        m = _run(case, trace=False)          # branches are recorded during the oracle's call (same case, next)
     except Exception as e:  # noqa
         return f"err:{type(e).__name__}"
+    if case["gen"] in ("chain_of_vertices", "vector_field"):
+        E = [sorted(int(x) for x in e) for e in m.edges]          # an edge is an unordered pair (mesh construction stores min first)
+        return f"{len(m.vertices)} ; " + " ".join([str(len(E))] + [f"{a} {b}" for a, b in E])
     F = [[int(v) for v in f] for f in m.faces] if hasattr(m, "faces") else []
-    return _report(len(m.vertices), F)
+    rep = _report(len(m.vertices), F)
+    if case["gen"] in VERT_GENS and not case.get("volume"):
+        rep += " ; verts:" + _check_vertex_expressions(case, m)
+    return rep
+
+
+VERT_GENS = {"unit_grid", "unit_triangle", "torus", "sphere_uv", "cylinder", "ring", "flat_ring"}
+
+
+def _vertex_values(case, m):
+    """values of the parameters of the translated vertex expressions for this case"""
+    import numpy as np
+    g, I, Bo, geo = case["gen"], case["ints"], case["bools"], case["geo"]
+    site = [x for x in VERTEX_SITES if x[1] == g][0]
+    v = {}
+    for n, x in zip(site[3], I): v[n] = int(x)
+    for n, x in zip(site[4], Bo): v[n] = bool(x)
+    if g == "torus": v["major_radius"], v["minor_radius"] = float(geo.get("R", 4 * geo["radius"])), float(geo["radius"])
+    if g == "sphere_uv": v["radius"], v["center"] = float(geo["radius"]), tuple(float(x) for x in geo["center"])
+    if g == "cylinder":
+        p1 = tuple(float(x) for x in geo["P"][0])
+        ax = _cyl_axis(case)
+        v["radius"], v["P1"], v["P2"] = float(geo["radius"]), p1, (p1[0] + ax[0], p1[1] + ax[1], p1[2] + ax[2])
+        v["cylinder_guard0"] = lambda t: math.sqrt(sum(c * c for c in t)) < 1e-6
+        v["rotate_around_axis_guard0"] = lambda ang, ax: abs(ang) < 1e-12 or math.sqrt(sum(c * c for c in ax)) < 1e-12
+    if g in ("ring", "flat_ring"): v["defect"] = float(geo["defect"])
+    if g == "ring": v["vertex0"] = tuple(float(c) for c in m.vertices[0])      # the apex found by the bisection (opaque)
+    return v
+
+
+def _apex_by_translated_bisection(case):
+    """runs the TRANSLATED dichotomy (initial bracket, step function with the aliasing semantics, stop threshold, midpoint) with
+    the real `angle_3pts` — validates the translation of the loop skeleton against the implementation's apex on every ring case"""
+    import mouette as M
+    N = int(case["ints"][0])
+    want = max(min(float(case["geo"]["defect"]), 2 * math.pi - 0.01), 0.)
+    A, B = (1., 0., 0.), (math.cos(2 * math.pi / N), math.sin(2 * math.pi / N), 0.)
+    ang = lambda a, p, b: float(M.geometry.angle_3pts(M.Vec(*a), M.Vec(*p), M.Vec(*b)))
+    P1, P2 = (0., 0., 0.), (0., 0., 10.)
+    for _ in range(400):
+        d1, d2 = 2 * math.pi - N * ang(A, P1, B), 2 * math.pi - N * ang(A, P2, B)
+        P1, P2 = _BISECT["step"]({"pi": math.pi, "angle_3pts": ang, "N": N, "defect": want, "A": A, "B": B, "P1": P1, "P2": P2})
+        if abs(d1 - d2) < 1e-6: return tuple((a + b) / 2 for a, b in zip(P1, P2))
+    return None
+
+
+def _check_vertex_expressions(case, m):
+    """translation validation of vlib/pyverts.py: the translated position expressions, evaluated with floats, against the
+    vertices the implementation returned"""
+    if not _VERT: translate()
+    if case["gen"] not in _VERT: return "untranslated"
+    ev, ex = _VERT[case["gen"]]
+    try:
+        want = ev(_vertex_values(case, m))
+    except Exception as e:  # noqa
+        return f"eval-error({type(e).__name__})"
+    for idx, pname in ex.overwritten.items():
+        if idx < len(want): want[idx] = tuple(float(c) for c in m.vertices[idx])
+    if case["gen"] == "ring":
+        apex = _apex_by_translated_bisection(case)
+        if apex is None: return "bisection-does-not-stop"
+        if any(abs(x - float(y)) > 1e-9 * max(1.0, abs(x)) for x, y in zip(apex, m.vertices[0])): return "apex-differs-from-translated-bisection"
+    got = [[float(c) for c in p] for p in m.vertices]
+    if len(got) != len(want): return f"count({len(want)}!={len(got)})"
+    for k, (a, b) in enumerate(zip(want, got)):
+        if any(abs(x - y) > 1e-9 * max(1.0, abs(x)) + 1e-12 for x, y in zip(a, b)): return f"differ@{k}"
+    return "ok"
 
 
 def compare(case, model, impl):
+    if case["gen"] in ("chain_of_vertices", "vector_field"):
+        head, _, tail = model.partition(" ; ")
+        t = tail.split()
+        pairs = [sorted((int(t[i]), int(t[i + 1]))) for i in range(1, len(t) - 1, 2)]
+        model = head + " ; " + " ".join([t[0]] + [f"{a} {b}" for a, b in pairs]) if t else model
+        return None if model == impl else f"polyline differs: translated-source model {model[:120]} vs implementation {impl[:120]}"
+    if case["gen"] in VERT_GENS and not case.get("volume"): model = model + " ; verts:ok"
     if model == impl: return None
     mp, ip = model.split(" ; "), impl.split(" ; ")
-    if len(ip) != 4: return f"implementation raised {impl} where the translated generator yields a mesh"
+    if len(ip) == 5 and len(mp) == 5 and mp[:4] == ip[:4]:
+        return f"vertex positions differ from the translated position expressions ({ip[4]})"
+    if len(ip) < 4: return f"implementation raised {impl} where the translated generator yields a mesh"
     for name, a, b in zip(["vertex count", "face list", "validity flags", "E/border/chi"], mp, ip):
         if a != b: return f"{name} differs: translated-source model {a[:120]} vs implementation {b[:120]}"
     return "differs"
@@ -409,7 +854,10 @@ def _expected(case):
     if g == "dodecahedron": return 20, 12, 2, 0
     if g == "icosphere": return 10 * 4 ** I[0] + 2, 20 * 4 ** I[0], 2, 0
     if g == "sphere_fibonacci": return I[0], 2 * I[0] - 4, 2, 0
-    if g == "dual_mesh": return 2 * I[0] * I[1], I[0] * I[1], 0, 0
+    if g == "dual_mesh":
+        b = case.get("base")
+        if b is None: return 2 * I[0] * I[1], I[0] * I[1], 0, 0
+        return {"icosahedron": (20, 12, 2, 0), "tetrahedron": (4, 4, 2, 0), "cube_tri": (12, 8, 2, 0), "cube": (6, 8, 2, 0)}[b]
     return None
 
 
@@ -446,6 +894,24 @@ def oracle(case):
         if Bo[0] and I[0] > 2: want = sorted(want + [(0, I[0] - 1)])
         if Bo[0] and I[0] == 2: want = [(0, 1)]
         if kind != "PolyLine" or nV != I[0] or E != want: bad("edges", "polyline does not link the vertices in order", f"{E}")
+        want_pts = np.array([[float(i), float(i * i), 0.5] for i in range(I[0])])
+        if nV == I[0] and nV and np.max(np.abs(pts - want_pts)) > 0: bad("positions", "polyline vertices are not the given points")
+        return out
+    if g == "vector_field":
+        n = I[0]
+        o, v = _vf_arrays(case, np)
+        o3, v3 = np.zeros((n, 3)), np.zeros((n, 3))
+        o3[:, :o.shape[1]], v3[:, :v.shape[1]] = o, v
+        E = [tuple(int(x) for x in e) for e in m.edges]
+        if kind != "PolyLine" or nV != 2 * n or E != [(2 * i, 2 * i + 1) for i in range(n)]:
+            bad("edges", "vector field is not one edge (2i, 2i+1) per origin", f"nV={nV} E={E[:6]}")
+        elif n and (np.max(np.abs(pts[0::2] - o3)) > 1e-12 or np.max(np.abs(pts[1::2] - (o3 + case["length_mult"] * v3))) > 1e-12):
+            bad("positions", "edge i does not run from origin i to origin i + length_mult * vector i")
+        return out
+    if g == "sphere_fibonacci" and not Bo[0]:
+        if kind != "PointCloud" or nV != I[0]: bad("point-cloud", "build_surface=False does not return the n points as a point cloud", f"{kind} {nV}")
+        elif nV and np.max(np.abs(np.linalg.norm(pts, axis=1) - geo["radius"])) > 1e-9 * max(1, geo["radius"]):
+            bad("on-sphere", "points are not at the radius from the origin")
         return out
     exp = _expected(case)
     vol = bool(case.get("volume"))
@@ -471,10 +937,14 @@ def oracle(case):
         if st["unused"]: bad("unused-vertex", f"{st['unused']} vertices are used by no face")
         if len({tuple(sorted(f)) for f in F}) != len(F): bad("repeated-face", "a face is repeated")
         if not st["manifold"]: bad("manifold", "not a consistently oriented manifold")
+        if g == "cylindrify_edges" and case.get("no_edges"):
+            if nV or F: bad("empty", "a polyline without edges does not give an empty surface")
+            return out
         if g in ("cylindrify_edges", "spherify_vertices"):
             want_c = 2 if g == "cylindrify_edges" else 3
             want_chi = 0 if g == "cylindrify_edges" else 6
             if st["components"] != want_c or st["chi"] != want_chi: bad("topology", "merged shape has the wrong topology", str(st))
+            _oracle_tubes_and_balls(case, pts, bad, np)
             return out
         if exp:
             V_, F_, chi, loops = exp
@@ -509,16 +979,45 @@ def oracle(case):
     if g == "torus":
         R = geo.get("R", 4 * r)
         d = (np.sqrt(pts[:, 0] ** 2 + pts[:, 1] ** 2) - R) ** 2 + pts[:, 2] ** 2
-        if np.max(np.abs(np.sqrt(d) - r)) > tol * max(1, R): bad("on-torus", "vertices are not on the torus of the given radii")
+        if np.max(np.abs(np.sqrt(d) - r)) > tol * max(1, R): bad("on-torus", "vertices are not on the torus of the given (independent) major and minor radii")
+    if g in ("octahedron", "dodecahedron") and nV and not vol:
+        d = np.linalg.norm(pts, axis=1)
+        if np.max(d) - np.min(d) > tol or np.max(np.abs(pts.mean(axis=0))) > tol or np.min(d) < 1e-3:
+            bad("on-sphere", "vertices are not on a sphere around the origin", f"norms {np.min(d)}..{np.max(d)}")
+        el = [np.linalg.norm(pts[a] - pts[b]) for f in F for a, b in _sides(f)]
+        if el and max(el) - min(el) > tol: bad("regular", "edges of the platonic solid are not all equal", f"{min(el)}..{max(el)}")
+        if any(len(f) != (3 if g == "octahedron" else 5) for f in F): bad("regular", "faces of the platonic solid have the wrong size")
+    if g == "dual_mesh" and nV and not vol and _LAST.get("base") is not None:
+        base = _LAST["base"]
+        bF = [[int(x) for x in f] for f in base.faces]
+        bP = np.array([[float(c) for c in p] for p in base.vertices])
+        if nV == len(bF):
+            if str(case.get("mode", "barycenter")).lower() == "barycenter":
+                want = np.array([bP[f].mean(axis=0) for f in bF])
+                if np.max(np.abs(pts - want)) > tol: bad("dual-position", "dual vertices are not at the barycentres of the faces")
+            else:
+                for k, f in enumerate(bF):
+                    dd = np.linalg.norm(bP[f] - pts[k], axis=1)
+                    nrm = np.cross(bP[f[1]] - bP[f[0]], bP[f[2]] - bP[f[0]])
+                    if np.max(dd) - np.min(dd) > 1e-8 or abs(float(nrm @ (pts[k] - bP[f[0]]))) > 1e-8 * max(1., float(np.linalg.norm(nrm))):
+                        bad("dual-position", "dual vertices are not at the circumcentres of the faces", f"face {k}"); break
+        # dual face V = the ring of primal faces around vertex V
+        if len(F) == len(bP):
+            for vtx, ring in enumerate(F):
+                inc = sorted(k for k, f in enumerate(bF) if vtx in f)
+                if sorted(ring) != inc: bad("dual-face-ring", "a dual face is not the set of faces around its vertex", f"vertex {vtx}"); break
     if g == "cylinder":
-        p1 = np.array(geo["P"][0], dtype=float); ax = np.array([1., 2., 2.]) / 3.0
+        p1 = np.array(geo["P"][0], dtype=float)
+        axv = np.array(_cyl_axis(case)); h = float(np.linalg.norm(axv)); ax = axv / h
         N = I[0]
         side = pts[:2 * N]
         rel = side - p1
         t = rel @ ax
         d = np.linalg.norm(rel - np.outer(t, ax), axis=1)
         if np.max(np.abs(d - r)) > tol * max(1, r): bad("on-cylinder", "side vertices are not at the radius from the axis")
-        if np.max(np.abs(t[:N])) > tol * 10 or np.max(np.abs(t[N:] - 3.0)) > tol * 10: bad("on-cylinder", "rings are not in the end planes")
+        if np.max(np.abs(t[:N])) > tol * 10 or np.max(np.abs(t[N:] - h)) > tol * 10: bad("on-cylinder", "rings are not in the end planes")
+        if Bo[0] and nV == 2 * N + 2 and (np.max(np.abs(pts[2 * N] - p1)) > 0 or np.max(np.abs(pts[2 * N + 1] - (p1 + axv))) > 1e-12):
+            bad("cap-centres", "the cap centres are not the end points")
     if g in ("unit_grid", "unit_triangle") and nV:
         if pts.min() < -tol or pts.max() > 1 + tol or np.max(np.abs(pts[:, 2])) > 0: bad("in-unit-square", "vertices leave the unit square")
         if g == "unit_grid":
@@ -557,15 +1056,42 @@ def oracle(case):
             bad("rim-position", "the closing vertex of the open ring is not a copy of the first rim vertex")
         if abs(pts[0][0]) > 1e-9 or abs(pts[0][1]) > 1e-9:
             bad("apex-on-axis", "the apex of the ring is not on the axis")
-    if g == "ring" and I[1] == 1 and nV >= I[0] + 1 and not out:
-        # apex defect = 2*pi - sum of the angles at vertex 0
+    if g == "ring" and nV >= I[0] * I[1] + 1 and not out:
+        # the angles at the apex add up to n_cover * (2*pi - defect): every cover (closed or opened) has the requested defect
         tot = 0.0
         for f in F:
             a, b = pts[f[1]] - pts[f[0]], pts[f[2]] - pts[f[0]]
             tot += math.atan2(np.linalg.norm(np.cross(a, b)), float(a @ b))
-        want = max(min(geo["defect"], 2 * math.pi - 0.01), 0.)
-        if abs((2 * math.pi - tot) - want) > 1e-4: bad("apex-defect", "apex angle defect differs from the request", f"{2 * math.pi - tot} vs {want}")
+        want = max(min(float(geo["defect"]), 2 * math.pi - 0.01), 0.)
+        got = 2 * math.pi - tot / I[1]
+        if abs(got - want) > 1e-4: bad("apex-defect", "apex angle defect differs from the request", f"defect {got} per cover vs requested {want}")
     return out
+
+
+def _oracle_tubes_and_balls(case, pts, bad, np):
+    g, I = case["gen"], case["ints"]
+    tol = 1e-9
+    if g == "cylindrify_edges":
+        P_ = np.array(_CYL_PTS); N = I[0]
+        edges = [(0, 1), (1, 2)]
+        L = float(np.mean([np.linalg.norm(P_[b] - P_[a]) for a, b in edges]))
+        if len(pts) != 2 * N * len(edges): bad("counts", "tube mesh does not have 2N vertices per edge"); return
+        for k, (a, b) in enumerate(edges):
+            blk = pts[2 * N * k: 2 * N * (k + 1)]
+            ax = (P_[b] - P_[a]) / np.linalg.norm(P_[b] - P_[a])
+            rel = blk - P_[a]
+            t = rel @ ax
+            d = np.linalg.norm(rel - np.outer(t, ax), axis=1)
+            if np.max(np.abs(d - L * 0.1)) > tol: bad("tube-radius", "tube vertices are not at (mean edge length x radius) from their edge")
+            if np.max(np.abs(t[:N])) > tol or np.max(np.abs(t[N:] - np.linalg.norm(P_[b] - P_[a]))) > tol:
+                bad("tube-ends", "tube rings are not in the planes through the end points of their edge")
+    if g == "spherify_vertices":
+        P_ = np.array(_SPH_PTS)
+        per = 10 * 4 ** I[0] + 2
+        if len(pts) != per * len(P_): bad("counts", "ball mesh does not have one icosphere per point"); return
+        for k in range(len(P_)):
+            d = np.linalg.norm(pts[per * k: per * (k + 1)] - P_[k], axis=1)
+            if np.max(np.abs(d - 0.25)) > tol: bad("ball-radius", "ball vertices are not at the radius from their point")
 
 
 def nontrivial(case, obs):
@@ -579,11 +1105,27 @@ def classify(case, obs):
     if case.get("defaults"): ks.append("documented-defaults-after-other-values")
     ks.append("representation:" + ("integer coordinates, numpy.int64 resolutions" if case.get("rep") == "int" else "floats, Python ints"))
     if str(obs).startswith("err"): ks.append(str(obs))
+    ks += list(_LAST.get("branches", []))
+    if case["gen"] in ("ring", "flat_ring"):
+        dv = float(case["geo"]["defect"])
+        if dv < 0: reg = "below 0 (clamped to 0)"
+        elif dv > 2 * math.pi - 0.01: reg = "above 2*pi-0.01 (clamped)"
+        elif case["gen"] == "ring" and dv > _defect_at(case["ints"][0], 10.0): reg = "needs an apex above the initial bracket z<=10 (bracket extension)"
+        else: reg = "inside the initial bracket / ordinary"
+        ks.append(f"{case['gen']} defect region: {reg}")
     return ks
 
 
+def _defect_at(N, z):
+    """angle defect of the closed ring with N triangles per cover when the apex sits at height z"""
+    import numpy as np
+    a, b = np.array([1., 0., -z]), np.array([math.cos(2 * math.pi / N), math.sin(2 * math.pi / N), -z])
+    return 2 * math.pi - N * math.atan2(float(np.linalg.norm(np.cross(a, b))), float(a @ b))
+
+
 def describe(case):
-    return {k: case[k] for k in ("gen", "ints", "bools", "defaults", "rep", "volume", "colored") if k in case}
+    return {k: case[k] for k in ("gen", "ints", "bools", "defaults", "rep", "volume", "colored", "mode", "base", "length_mult", "dim", "uv", "axis", "no_edges", "raw_points") if k in case} | (
+        {"defect": case["geo"]["defect"]} if case["gen"] in ("ring", "flat_ring") else {})
 
 
 REQUIRED_THEOREMS = ["tetrahedron_closed_oriented", "icosahedron_closed_oriented", "hexahedron_quad_closed_oriented",
@@ -599,30 +1141,73 @@ REQUIRED_THEOREMS = ["tetrahedron_closed_oriented", "icosahedron_closed_oriented
                      "torus_quad_sides_nodup", "torus_quads_dirEdges_count", "unit_gridFaces_eq", "unit_grid_quads_oriented",
                      "unit_grid_tris_oriented", "sphere_uvFaces_eq", "sphere_oriented", "sphere_closed",
                      "cylinderFaces_eq", "cylinder_oriented", "cylinder_closed", "cylinder_open_border",
-                     "ringFaces_mem", "ring_oriented", "ring_border", "flat_ringFaces_eq", "flat_ring_oriented", "flat_ring_border", "unit_triangle_inRange"]
+                     "ringFaces_mem", "ring_oriented", "ring_border", "flat_ringFaces_eq", "flat_ring_oriented", "flat_ring_border", "unit_triangle_inRange",
+                     # round 3: Euler characteristic / border loops / connectedness / umbrellas, all resolutions
+                     "torusFaces_addressed", "torus_quads_euler", "torus_tris_euler", "sphere_uvFaces_addressed", "sphere_uv_euler",
+                     "cylinderFaces_addressed", "cylinder_closed_euler", "cylinder_open_euler", "cylinder_open_loops",
+                     "ringFaces_addressed", "ring_closed_euler", "ring_closed_loop", "ringFaces_open_eq", "ring_open_euler", "flat_ring_euler",
+                     "fan_euler", "fan_loop", "unit_gridFaces_addressed", "unit_grid_quads_euler", "unit_grid_tris_euler",
+                     "unit_grid_quads_loop", "unit_grid_tris_loop", "unit_triangleFaces_addressed", "unit_triangle_nfaces",
+                     "unit_triangle_oriented", "unit_triangle_euler", "unit_triangle_loop", "unit_triangle_disk",
+                     "torus_quads_connected", "torus_tris_connected", "unit_grid_quads_connected", "unit_grid_tris_connected",
+                     "sphere_uv_connected", "torus_quads_umbrella", "torus_tris_umbrella", "unit_grid_quads_umbrella",
+                     "sphere_uv_umbrella_north", "sphere_uv_umbrella_south", "sphere_uv_umbrella_ring",
+                     # round 3: geometry of the translated vertex expressions
+                     "torus_vertex_index", "torus_point_on_torus", "torus_on_torus_all", "sphere_uv_vertex_index", "sphere_uv_on_sphere_all",
+                     "unit_grid_vertex_index", "unit_grid_in_unit_square", "unit_triangle_in_unit_square", "ring_rim_on_unit_circle",
+                     "ring_open_last_is_first", "flat_ring_rim_unit", "flat_ring_angle", "flat_ring_vertex_index",
+                     "rotate_around_axis_unit_orth", "cylinder_ring_point", "cylinder_vertex_index",
+                     # round 3: generators built on other modules
+                     "icosphere_projection_on_sphere", "dual_counts", "octahedron_dodecahedron_counts", "triangulated_sphere_face_count",
+                     "chain_open", "chain_loop", "vector_field_edges",
+                     # the bisection of `ring` (loop body translated with numpy aliasing semantics)
+                     "ring_bisect_step_spec", "ring_bisect_bracket", "bracket_midpoint_error", "ring_bisect_frame"]
 TRUSTED = [
     "Lean 4.33.0 kernel; axioms ⊆ {propext, Classical.choice, Quot.sound}",
-    "translator vlib/pyloops.py + vlib/props/c14.py (Python ast -> Lean terms for loop nests and literal tables); it is itself "
-    "validated on every run: the evaluated terms are compared with the face lists the implementation returns (order included)",
+    "translators vlib/pyloops.py (face/edge loop nests, literal tables) and vlib/pyverts.py (vertex positions as expressions over a "
+    "field with uninterpreted cos/sin/pi) + vlib/props/c14.py; both are validated on every run: the evaluated face/edge terms are "
+    "compared with the lists the implementation returns (order included), and the position expressions, evaluated with floats, with "
+    "the returned vertices (1e-9); the Lean PRINTER of pyverts is trusted",
     "Python ints modelled as Nat (truncated subtraction): exact on admissible parameters, where no subtraction underflows",
-    "geometry (radius/centre/unit square/corners/apex defect), generators built on subdivision, qhull or dual meshes, and "
-    "manifoldness/topology for the parametric families are checked by the oracle on a box of parameters, not proved",
+    "abstract cos/sin/pi/normalize/min/max: the geometry theorems assume cos² + sin² = 1 and that `normalize` returns a unit multiple "
+    "of its argument; float comparison guards (`t.norm() < 1e-6`, `abs(angle) < 1e-12`) are opaque Booleans and the theorems hold "
+    "for both outcomes; the ring's apex (found by a float bisection) is opaque: its angle defect is checked numerically only",
+    "generators built on subdivision / qhull (icosphere after subdivision, sphere_fibonacci's hull, cylindrify_edges, "
+    "spherify_vertices) and the geometry of dual meshes are checked by the oracle on a box of parameters; proved for them: the "
+    "icosphere projection formula, the dual counts, `closed oriented triangulation with χ = 2 ⇒ F = 2V − 4`",
 ]
-ASSUMPTIONS = ["floating point trigonometry of the vertex positions is not modelled", "correspondence and oracle cover the parameter box of the tier only"]
+ASSUMPTIONS = ["floating point rounding of the vertex positions is not modelled (expressions are exact over a field)",
+               "correspondence and oracle cover the parameter box of the tier only (theorems cover all parameters)"]
 RULE = ("every generator × all integer resolutions in a box (quick 2..7, thorough 2..16, unequal resolutions included) × all boolean "
-        "switches × random centres/radii/corners; non-trivial = distinct parameter tuple for which the generator returned a mesh")
+        "switches × random centres / radii (torus: independent major and minor radius) / corners, dual_mesh modes and base meshes, "
+        "vector_field length_mult and dimension; a quarter of the cases in integer representation; documented defaults after other "
+        "values; non-trivial = distinct parameter tuple for which the generator returned a mesh")
 MANIFEST = {
-    "level_text": ("Proof over translated source. The face-emitting loop nests and literal tables of mouette/procedural/{shapes,flat,rings}.py "
-                   "are re-extracted from the working tree on every run (Python ast -> functional Lean terms) and the theorems are "
-                   "re-checked against them: literal tables (tetrahedron, hexahedron x2, icosahedron, triangle, quad) are closed / consistently "
-                   "oriented / no unused vertex / no repeated face / chi by kernel evaluation; for ALL resolutions (equal or not) of unit_grid, "
-                   "torus, sphere_uv, cylinder, ring, flat_ring (and unit_triangle for nu>=nv): vertex and face counts equal the documented "
-                   "functions, every face index is in range and no vertex is unused (torus, unit_grid: faces have distinct vertices; torus: every directed edge in at most one face and its opposite in a neighbouring face = closed consistently oriented, quads and triangles; unit_grid: consistently oriented; sphere_uv (n_lat>=1, n_long>=3): closed and consistently oriented; cylinder (N>=3): consistently oriented, closed with caps, exactly the 2N rim edges unmatched without; ring / flat_ring: consistently oriented fans whose only unmatched edges are the rim (and end spokes)); hexahedron_4pts forwards its switches by name. The translator is validated "
-                   "each run against the implementation's returned face lists; manifoldness/topology of the parametric families, geometry "
-                   "and the non-translated generators (icosphere, fibonacci, dual, octa/dodecahedron) are oracle-checked on a parameter box (partial)."),
-    "level_note": ("Trusted: Lean kernel + standard axioms; the ast translator (validated by exact face-list comparison on the box each run); "
-                   "Nat for Python ints on admissible parameters; float trigonometry not modelled. Open finding: unit_triangle(nu<nv)."),
-    "technique": "Lean 4 theorems over source-translated terms (decide on tables, induction/omega on loop nests) + translation validation + oracle",
+    "level_text": ("Proof over translated source. The face/edge-emitting loop nests, the literal tables AND the vertex-emitting code of "
+                   "mouette/procedural/{shapes,flat,rings,polylines,dual}.py are re-extracted from the working tree on every run (Python ast "
+                   "-> functional Lean terms; positions as expressions over a field with uninterpreted cos/sin) and the theorems are "
+                   "re-checked against them. Literal tables (tetrahedron, hexahedron x2, icosahedron, triangle, quad): closed / consistently "
+                   "oriented / no unused vertex / no repeated face / chi by kernel evaluation. For ALL admissible parameters (equal or unequal "
+                   "resolutions): counts equal the documented functions, indices in range, no unused vertex (unit_grid, torus, sphere_uv, "
+                   "cylinder, ring, flat_ring; unit_triangle for nu>=nv); every directed side in at most one face (consistent orientation); "
+                   "Euler characteristic with E = number of distinct undirected vertex pairs: torus 0 (quads and triangles), sphere_uv 2, "
+                   "cylinder 2 with caps and 0 without, unit_grid / unit_triangle / ring / open ring / flat_ring 1; border: none for the "
+                   "closed shapes, and for the others the unmatched sides are exactly the sides of explicit vertex-disjoint polygons "
+                   "(open cylinder: two N-gons; grid: one perimeter loop of 2(nu-1)+2(nv-1) sides; triangle: 3(nv-1); rings: one loop); "
+                   "one connected component (torus, grid, sphere_uv); vertex umbrellas (torus, interior grid vertices, every sphere_uv vertex). "
+                   "Geometry of the translated position expressions, for all parameters, given cos²+sin²=1: torus points satisfy the "
+                   "implicit torus equation of the NAMED major/minor radii, sphere_uv points are at the named radius from the named centre, "
+                   "grid/triangle points lie in the unit square (corners present), ring rim on the unit circle at the indexed angles, "
+                   "flat_ring rim unit and turning by (2π − clamp(defect))/N per step, cylinder ring points in the end planes at the named "
+                   "radius from the axis; `vertex k is the point (i,j)` index theorems. Derived generators: icosphere projection formula on "
+                   "the sphere, dual counts (octahedron 6/8, dodecahedron 20/12), closed oriented triangulation with chi=2 has 2V−4 faces "
+                   "(sphere_fibonacci), chain_of_vertices is a path / a cycle, vector_field edges. hexahedron_4pts forwards its switches by "
+                   "name. Oracle-only (parameter box): subdivision/qhull-based generators' topology and geometry, dual positions, ring apex "
+                   "defect, tube/ball radii (partial)."),
+    "level_note": ("Trusted: Lean kernel + standard axioms; the two ast translators (validated by exact face-list and 1e-9 vertex comparison "
+                   "on the box each run); Nat for Python ints on admissible parameters; float rounding not modelled; cos/sin/normalize "
+                   "abstract. Open finding: unit_triangle(nu<nv)."),
+    "technique": "Lean 4 theorems over source-translated terms (decide on tables, induction/omega/ring on loop nests and position expressions) + translation validation + oracle",
 }
 
 
